@@ -175,11 +175,14 @@ def container_puts(o):
         if e.op == "eff:store":
             out.append(("store", e.args[1], e.args[2]))
         elif e.op == "eff:call" and isinstance(e.args[0], App) and e.args[0].op in ("meth:append", "meth:update", "meth:extend", "meth:insert", "meth:add"):
+            from sa.terms import top_cases
             for a_ in e.args[0].args[1:]:
-                if e.args[0].op == "meth:extend" and isinstance(a_, App) and a_.op in ("tuple", "list"):
-                    out += [("call", None, x) for x in a_.args]
-                else:
-                    out.append(("call", None, a_))
+                # extend(x if c else (y,)): each alternative on its own; a tuple / list literal contributes its items
+                for _, alt in (top_cases(a_) if e.args[0].op == "meth:extend" else [({}, a_)]):
+                    if e.args[0].op == "meth:extend" and isinstance(alt, App) and alt.op in ("tuple", "list"):
+                        out += [("call", None, x) for x in alt.args]
+                    else:
+                        out.append(("call", None, alt))
     for s_ in (subterms(o.value) if o.value is not None else ()):
         if isinstance(s_, App) and s_.op in ("comp:list", "comp:gen", "comp:set") and len(s_.args) == 3:
             out.append(("comp", None, s_.args[0]))
